@@ -34,6 +34,11 @@ def main():
         else:
             lps.append(lpgen.gen_around_point(r, nmax))
     corpus = lpgen.load_corpus("C02")
+    if ck.args.replay:
+        import json
+        rp = json.load(open(ck.args.replay))
+        corpus = [(lpgen.parse_lp_text(rp["lp"]), [rp.get("config", {})])]
+        lps = []
     lps = [c[0] for c in corpus] + lps
     classes, exs = S.classify(lps)
     cfgs = {}
